@@ -715,12 +715,18 @@ struct TemplateCore {
 
                 case TagPatterns::LoopEndID: {
                     if ((loop_tag != nullptr) && parent_storage.IsNotEmpty()) {
-                        storage = *(parent_storage.Last());
-                        parent_storage.Drop(SizeT{1});
+                        Array<TagBit> *tmp     = *(parent_storage.Last());
+                        TagBit        *tag_bit = tmp->Last();
 
-                        LoopTag &tag  = storage->Last()->GetLoopTag();
-                        tag.EndOffset = (finder.GetOffset() - TagPatterns::LoopSuffixLength);
-                        loop_tag      = tag.Parent;
+                        // Only when the innermost open tag is a loop (not <if>, {svar: or {if).
+                        if ((tag_bit != nullptr) && (tag_bit->GetType() == TagType::Loop)) {
+                            storage = tmp;
+                            parent_storage.Drop(SizeT{1});
+
+                            LoopTag &tag  = tag_bit->GetLoopTag();
+                            tag.EndOffset = (finder.GetOffset() - TagPatterns::LoopSuffixLength);
+                            loop_tag      = tag.Parent;
+                        }
                     }
 
                     finder.Next();
